@@ -92,7 +92,7 @@ def main():
                 results.append(["ok", [fmt(x) for x in o.scores()], list(o.severities())])
             elif kind == "X":
                 res = parse_cvss_from_text(op[1])
-                results.append(["ok", sorted([type(o).__name__, o.clean_vector()] for o in res)])
+                results.append(["ok", [[type(o).__name__, o.clean_vector()] for o in res]])
             elif kind == "I" or kind == "L":
                 answers = list(op[-1])
                 w = Writer()
